@@ -1252,6 +1252,8 @@ def call_builtin(ip, st, f, args, kwargs):
         return read(names[0]) if len(names) == 1 else tuple(read(n) for n in names)
     if isinstance(f, type) and issubclass(f, BaseException):
         return SExc(f, args)
+    if is_namedtuple_class(f):
+        return namedtuple_new(f, args, kwargs)
     if isinstance(f, tuple) and f and f[0] == "wraps":
         return args[0]  # functools.wraps(fn)(wrapper) -> wrapper
     # a real repository function object (module-level): map to its AST
@@ -1282,6 +1284,48 @@ def call_builtin(ip, st, f, args, kwargs):
         except Exception as ex:  # noqa: BLE001
             _raise(type(ex), str(ex))
     raise Unsupported(f"call of {getattr(f, '__qualname__', f)!r} with symbolic arguments")
+
+
+def is_namedtuple_class(f):
+    return isinstance(f, type) and issubclass(f, tuple) and f is not tuple and isinstance(getattr(f, "_fields", None), tuple) and f.__new__ is not tuple.__new__ and "__init__" not in f.__dict__
+
+
+class NTuple(tuple):
+    """Value of a `typing.NamedTuple` / `collections.namedtuple` constructor call: a tuple (every tuple operation
+    -- unpacking, indexing, len, iteration, equality with a plain tuple -- is the tuple's own) that remembers its
+    class, so that the interpreter can also read a component by field name (`Interp.getattr`)."""
+
+    nt_cls = None
+
+    def __new__(cls, nt_cls, items):
+        self = tuple.__new__(cls, items)
+        self.nt_cls = nt_cls
+        return self
+
+
+def namedtuple_new(cls, args, kwargs):
+    """`cls(*args, **kwargs)` for a NamedTuple class: CPython's generated `__new__(_cls, f1, f2=default, ...)` binds
+    the arguments like an ordinary signature over `_fields` with `_field_defaults`, raises TypeError for a missing /
+    surplus / repeated / unknown argument, and the components are stored unconverted (no coercion, no validation).
+    Dual use: the components may be symbolic values (they are only stored) -- cross-checked against the real classes
+    on plain values by the static check `namedtuple-model-agrees-with-cpython` of contracts/C07_listbox.py."""
+    fields = cls._fields
+    defaults = getattr(cls, "_field_defaults", {})
+    if len(args) > len(fields):
+        _raise(TypeError, f"{cls.__name__}() takes {len(fields)} positional arguments but {len(args)} were given")
+    vals = dict(zip(fields, args))
+    for k, v in kwargs.items():
+        if k not in fields:
+            _raise(TypeError, f"{cls.__name__}() got an unexpected keyword argument {k!r}")
+        if k in vals:
+            _raise(TypeError, f"{cls.__name__}() got multiple values for argument {k!r}")
+        vals[k] = v
+    for k in fields:
+        if k not in vals:
+            if k not in defaults:
+                _raise(TypeError, f"{cls.__name__}() missing required argument {k!r}")
+            vals[k] = defaults[k]
+    return NTuple(cls, [vals[k] for k in fields])
 
 
 def _native_ok(f, args):
